@@ -94,6 +94,43 @@ int main(void)
 		if (drv_nw < 2 || strcmp(drv_w[0], "n")) { puts("bad-op"); continue; }
 		const char *op = drv_w[1];
 		if ((!strcmp(op, "begin") || !strcmp(op, "end")) && drv_nw == 2) { puts("R ok | C - | I ret=0"); continue; }
+		if (!strcmp(op, "cxxlist") && drv_nw == 4) {
+			/* n cxxlist <k> <i>: k C++ nodes (mpt::node) are chained to a sibling list WITHOUT parent, the i-th is deleted:
+			 * its neighbours must name each other afterwards; then the rest is deleted and every byte is back */
+			size_t k = 0, idx = 0;
+			char verdict[96];
+			if (drv_parse_nat(drv_w[2], &k) || drv_parse_nat(drv_w[3], &idx) || !k || k > 16 || idx >= k) { puts("bad-op"); continue; }
+			size_t start = __sanitizer_get_current_allocated_bytes();
+			snprintf(verdict, sizeof(verdict), "sound");
+			{
+				::mpt::node *n[16];
+				for (size_t j = 0; j < k; j++) {
+					n[j] = new ::mpt::node();
+					if (j) mpt_gnode_after(n[j - 1], n[j]);
+				}
+				::mpt::node *before = idx ? n[idx - 1] : 0, *after = idx + 1 < k ? n[idx + 1] : 0;
+				delete n[idx];
+				n[idx] = 0;
+				if (before && before->next != after) snprintf(verdict, sizeof(verdict), "BROKEN:next-of-predecessor");
+				if (after && after->prev != before) snprintf(verdict, sizeof(verdict), "BROKEN:prev-of-successor");
+				/* the remaining list, walked forward, has k-1 nodes with agreeing links */
+				if (!strcmp(verdict, "sound")) {
+					::mpt::node *h = idx ? n[0] : (k > 1 ? n[1] : 0), *pv = 0;
+					size_t cnt = 0;
+					for (::mpt::node *c = h; c && cnt <= k; pv = c, c = c->next, ++cnt) if (c->prev != pv) snprintf(verdict, sizeof(verdict), "BROKEN:prev-mismatch");
+					if (cnt != k - 1) snprintf(verdict, sizeof(verdict), "BROKEN:count=%zu", cnt);
+				}
+				if (!strncmp(verdict, "BROKEN", 6)) {
+					/* do not walk broken links again: detach by hand before deleting */
+					for (size_t j = 0; j < k; j++) if (n[j]) { n[j]->next = n[j]->prev = 0; }
+				}
+				for (size_t j = 0; j < k; j++) if (n[j]) delete n[j];
+			}
+			if (!strcmp(verdict, "sound") && __sanitizer_get_current_allocated_bytes() != start)
+				snprintf(verdict, sizeof(verdict), "not-released:bytes=%ld", (long) __sanitizer_get_current_allocated_bytes() - (long) start);
+			printf("R %s | C - | I ret=-\n", verdict);
+			continue;
+		}
 		if (!strcmp(op, "cxxreread") && drv_nw == 4) {
 			uint8_t *d = 0; size_t len = 0, cycles = 0; int isnull = 0;
 			char verdict[128];
